@@ -303,7 +303,7 @@ def main():
     pending_hits = []
     replay_dir = os.environ.get('VERIF_REPLAY_DIR', os.path.join(HERE, 'replays'))
     os.makedirs(replay_dir, exist_ok=True)
-    n_search = {'quick': 150, 'thorough': 2000}[args.tier]
+    n_search = {'quick': 400, 'thorough': 3000}[args.tier]
 
     # bounded oracle comparisons run concurrently (one interpreter process per function)
     def _search(t):
@@ -399,6 +399,19 @@ def main():
                 # undecided for it (exit 2), whatever the bounded comparison sampled
                 undecided.append({'obligation': t + '#not-under-proof', 'detail': 'degraded: ' + r['unsupported']})
             continue
+        if bad and search_hit is None and not r.get('unsupported'):
+            # an obligation is open and the first sample found nothing: look harder for a concrete input
+            # (ten times the samples, another stream) before calling the function undecided
+            sr2 = native({'mode': 'search', 'contract_modules': CONTRACT_MODULES, 'target': t, 'n': n_here * 10,
+                          'seed': seed + 7919, 'tier': args.tier,
+                          'known_cases': [k['case'] for k in known if k.get('status') == 'known' and k['target'] == t
+                                          and k['property'] == prop and k.get('case')]}, timeout=3600)
+            h2 = sr2.get('mismatch')
+            if h2 is not None and 'oracle_error' not in h2 and not is_known(known, t, h2, prop):
+                search_hit = h2
+            bounded_checks.append({'name': 'deepened native search after an open obligation: ' + t,
+                                   'bound': '%d sampled inputs' % (n_here * 10), 'cases': sr2.get('accepted'),
+                                   'distinct': sr2.get('distinct'), 'passed': h2 is None})
         for o in bad:
             hit = None
             found_by = 'none'
